@@ -63,7 +63,7 @@ def run(ctx):
                         "hash obligations (HASH160 of the key, hashes embedded in FORKID preimages) recomputed by python hashlib"]
     ctx.tlc("MC_Commit.tla", "MC_Commit.cfg")
     cpath = os.path.join(ctx.tmp, "commit-cases.ndjson")
-    ctx.run_vh(["sigs", "-mode", "commit", "-out", cpath, "-n", ctx.pick(260, 12000)])
+    ctx.run_vh(["sigs", "-mode", "commit", "-out", cpath, "-n", ctx.pick(260, 25000)])
     cases = vf.read_ndjson(cpath)
     events = V.run_cases(ctx, cases, three=False, tag="commit")
     rejects, st = V.validate(ctx, events)
